@@ -12,7 +12,7 @@ forms (Model/SymExprSympy.lean): `C16_print_parse_sympy_partial`.
 Wave 4: the evaluation half of the SymPy-surface theorem, `sqrt` spellings and Rational exponents
 included: `C16_print_parse_sympy` (supersedes `C16_print_parse_sympy_partial`); bool operands of the
 overloads (`isinstance(True, int)`): `C16_overload_dispatch_bool`; symbolic negative exponents in a
-denominator (`M/K**N`): `C16_print_parse_sympy_symexp`.
+denominator (`M/K**N`): `C16_print_parse_sympy_symexp`, `C16_print_parse_sympy_refines`.
 Still outside every theorem (tested on every run): SymPy's construction / automatic simplification /
 `subs` / `simplify` (that the object SymPy holds means what the operator tree means), CPython's
 Unicode tables and operator dispatch.
@@ -28,6 +28,7 @@ import IrVerif.Lemmas.SymDim
 import IrVerif.Lemmas.SymLexU
 import IrVerif.Lemmas.SymExprSympy
 import IrVerif.Lemmas.SymExprSympyEval
+import IrVerif.Lemmas.SymExprSympyRefine
 namespace IrVerif.SymExpr
 
 /-- **C16_partial**: binding some symbols first and the rest later gives the value of binding
@@ -640,6 +641,17 @@ example : eval (Env.ofList [("M", 5), ("K", 0), ("N", -2)])
 example : eval (Env.ofList [("M", 5), ("K", 0), ("N", -2)])
     (surf (.mul [.sym "M", .pow (.sym "K") (.mul [.int (-1), .sym "N"])])) = none := by
   decide +kernel
+
+/-- **C16_print_parse_sympy_refines**: the text is never MIS-read.  For every tree `s` in `SWfX`
+    (symbolic negative exponents in denominators included) and EVERY binding - no side condition -
+    whenever the tree the parser returns on SymPy's text has a value, it is the value of the SymPy
+    object's meaning.  Together with `C16_print_parse_sympy_symexp`: the two readings agree unless a
+    denominator with a symbolic exponent has a zero base, and there the text can only lose its
+    value (`M/0**(-2)`: ZeroDivision, against `M*0**2 = 0`), never take another one. -/
+theorem C16_print_parse_sympy_refines (s : SExpr) (h : SWfX s) :
+    ∃ t, parseTokens (ppSympy s) = some t ∧
+      ∀ (env : Env) (v : Rat), eval env t = some v → eval env (sden s) = some v :=
+  ⟨surf s, parse_ppSympy_surfX s h, fun env v hv => surf_refines s h env v hv⟩
 
 /-- **C16_overload_dispatch_bool**: Python's bool-as-int in the overload dispatch.  `True` / `False`
     are `int`s for `isinstance(other, int)`, so a bool operand goes down the `int` branches of every
